@@ -55,7 +55,7 @@ func DelFits(c *cases.Del) bool {
 	return true
 }
 
-var validIns = []string{"valid/first-free", "valid/last-leaves", "valid/random-pos", "valid/after-occupied", "valid/commitment-zero", "valid/commitment-extremes"}
+var validIns = []string{"valid/first-free", "valid/last-leaves", "valid/random-pos", "valid/after-occupied", "valid/commitment-zero", "valid/commitment-extremes", "valid/all-zero-commitments"}
 var validDel = []string{"valid/members", "valid/mixed-padding", "valid/all-padding", "valid/padding-garbage", "valid/padding-genuine-proof", "valid/padding-extremes", "valid/empty-leaf-zero", "valid/duplicate-then-zero"}
 
 // ValidIns draws a valid insertion batch (as judged by the oracle).
